@@ -35,7 +35,8 @@ STAND_INS = {
     "C05.": "stdio_client.py::StdioClient._stdout_reader",
     "C06.": "stdio_client.py::StdioClient._stdin_writer",
     "C17.": "fast_json.py::dumps|fast_json.py::loads",
-    "C13.": "stdio_client.py::StdioClient._process_message_data|stdio_client.py::StdioClient._route_message",
+    "C13.": "stdio_client.py::StdioClient._process_message_data|stdio_client.py::StdioClient._route_message|"
+            "stdio_client.py::StdioClient.new_request_stream",
     "C11.": "http/transport.py::StreamableHTTPTransport._send_message_internal|http/transport.py::StreamableHTTPTransport._process_sse_text|"
             "http/transport.py::StreamableHTTPTransport._route_response",
     "C03.": "initialize/send_messages.py::send_initialize",
@@ -60,3 +61,38 @@ def stand_in(prefixes, tier, undecided):
             r["covers"] = keys
         out.append(r)
     return out
+
+
+def audit_both_backends(prefix, tier="quick"):
+    """AuditResult of the bounded native search registered for `prefix`, run on the real code under the pydantic backend
+    (in process) and under the pure-python fallback backend (subprocess with MCP_FORCE_FALLBACK=1).  A failing input is
+    reported as a violation with a replayed input; a pass is bounded."""
+    import json
+    import os
+    import subprocess
+    import sys
+    from pyvc.check import AuditResult
+    results = {}
+    r = search_for(prefix, tier) or {}
+    results["pydantic backend"] = r
+    if not r.get("reproduced"):
+        src = os.path.join(os.environ.get("VERIF_REPO", "/repo"), "src")
+        verif = os.path.dirname(os.path.dirname(os.path.abspath(__file__)))
+        code = ("import sys, json; sys.path[:0] = [%r, %r]; from checks import native; "
+                "print('RESULT ' + json.dumps(native.search_for(%r, %r), default=str))" % (src, verif, prefix, tier))
+        try:
+            out = subprocess.run([sys.executable, "-c", code], env=dict(os.environ, MCP_FORCE_FALLBACK="1"), capture_output=True,
+                                 text=True, timeout=600).stdout
+            line = [l for l in out.splitlines() if l.startswith("RESULT ")]
+            if line:
+                results["fallback backend (MCP_FORCE_FALLBACK=1)"] = json.loads(line[-1][7:]) or {}
+        except Exception:      # noqa: BLE001
+            pass
+    n = sum(int(x.get("cases", 0) or 0) for x in results.values())
+    name = f"bounded native search {prefix.rstrip('.')} under both backends"
+    for backend, x in results.items():
+        if x.get("reproduced"):
+            return AuditResult(name, False, n, f"[{backend}] {str(x.get('observed'))[:300]}",
+                               violation=dict(input=dict(backend=backend, input=x.get("input")), observed=x.get("observed"),
+                                              required=x.get("required")))
+    return AuditResult(name, True, n, bound="; ".join(f"{b}: {x.get('bound', x.get('error', 'not run'))}" for b, x in results.items()))
